@@ -33,6 +33,9 @@ CLAIMED = {
  "C09": ("finite predicate abstraction with uninterpreted terms (sibling comparison against the single-verification specification), symbolic single-iteration loop summaries",
          "Decides that the siblings of single verification are the same Boolean function of the same conditions: verifyExpandedWithOptionsNoPanic (~900 paths) and the batch verifier's per-entry admission entry.doInit (~1900 paths, both key forms) are compared path by path, in Kleene logic, with the SAME specification formulas as C01 instantiated for the cached key predicates, and must use the specified equation / stored fields (hram from the same hash sequence, -A, R, S, expandedA, wantCofactorless, signature); NewExpandedPublicKey must cache exactly the DT-1 predicates of the same bytes; checkExpandedPublicKey is DT-1 over the cached fields; every Add* appends the entry and ORs anyInvalid / anyCofactorless / anyNotExpanded from that entry on every path and Reset clears them; VerifyBatchOnly aborts exactly on empty / anyInvalid / anyCofactorless; the serial fallback of Verify (one symbolic iteration) skips exactly the entries that cannot be valid, selects the equation by (expanded?, cofactorless?) with the same operand roles, and folds the conjunction starting from not anyInvalid; the caching verifier looks up, expands and stores under the same 32 bytes and delegates unchanged. The multiscalar batch equation and LRU eviction order are not decided.",
          "DESIGN.md §3 E-DT, §4 C09", "specifications in props/c09*.go share the formulas of props/c01.go; loop summaries describe one iteration for an arbitrary count", ["edt", "emod"]),
+ "C02": ("finite predicate abstraction with uninterpreted terms; extensional (256-value) evaluation of constant bit-mask code; error-discipline dominance rule",
+         "Decides the structure of RFC 8032 signing and key derivation for all paths (all option combinations and variants): PrivateKey.Sign returns an error exactly under the specified conditions (invalid options, context over 255 bytes, bad pre-hash length or hash id, key length other than 64, entropy read failure, self-verification failure) and never a signature together with an error; on every success path the result is compress([r]B) followed by enc(k*a + r) where r and k are the wide reductions of SHA-512 over exactly dom2(variant) | digest[32:64] | M and dom2 | R | priv[32:64] | M, a = SetBits(clamp(digest[0:32])), the clamp being compared as a function on all 256 byte values with b&248 and (b&127)|64; with AddedRandomness the nonce hash must absorb the bytes read from the entropy source in addition to prefix and message (layout not frozen); newKeyFromSeed panics exactly on a wrong seed length and writes seed | compress([a]B). Byte-exact outputs and unforgeability are not decided.",
+         "DESIGN.md §3 E-DT/E-SEQ, §4 C02", "infallible-operation assumptions are listed with reasons in props/c02.go", ["edt", "emod", "elen"]),
 }
 
 PENDING_REASON = "check under construction (DESIGN.md section 7 build order); not claimed yet"
